@@ -293,13 +293,13 @@ package fans
 //@ pure noData(p *map[int]float64) bool = p == nil || len(*p) <= 0
 
 //@ func (*HwMonFan).AttachFanRpmCurveData
-//@   props C13
+//@   props C13 C02
 //@   requires hwWF(fan)
 //@   requires[C13.pre -C15 -C16] hwCfg(fan) && (curveData != nil ==> rpmDataOK(*curveData))
 //@   ensures hwWF(fan)
 //@   ensures[C13.refuse C15 C16]  noData(curveData) ==> err == os.ErrInvalid && fan.MinPwm == old(fan.MinPwm) && fan.StartPwm == old(fan.StartPwm) && fan.MaxPwm == old(fan.MaxPwm) && fan.FanCurveData == old(fan.FanCurveData)
 //@   ensures[C13.accept C15 C16]  !noData(curveData) ==> err == nil && fan.FanCurveData == curveData
-//@   ensures[C13.cfgwins] hwCfg(fan)
+//@   ensures[C13.cfgwins C02] hwCfg(fan)
 //@   ensures[C13.max]     !noData(curveData) && fan.Config.MaxPwm == nil ==> isMaxOf(*curveData, hwMax(fan))
 //@   ensures[C13.startfirst] !noData(curveData) && fan.Config.StartPwm == nil && old(hwStart(fan)) >= 255 ==> isStartOf(*curveData, hwStart(fan))
 //@   ensures[C13.start]   !noData(curveData) && fan.Config.StartPwm == nil ==> isStartOf(*curveData, hwStart(fan))
@@ -315,9 +315,9 @@ package fans
 //@   modifies nothing
 
 //@ func NewFan
-//@   props C13
+//@   props C13 C02
 //@   returns (fan, err)
-//@   ensures[C13.new] config.HwMon != nil ==> err == nil && fan is *HwMonFan && fan.(*HwMonFan) != nil && hwCfg(fan.(*HwMonFan)) && fresh(fan.(*HwMonFan))
+//@   ensures[C13.new C02] config.HwMon != nil ==> err == nil && fan is *HwMonFan && fan.(*HwMonFan) != nil && hwCfg(fan.(*HwMonFan)) && fresh(fan.(*HwMonFan))
 //@   modifies nothing
 
 // ---- RPM bookkeeping (C10) ------------------------------------------------------------------------------
